@@ -94,6 +94,7 @@ class ClassInfo:
         self.name = node.name
         self.qual = module.name + '.' + node.name
         self.methods = {}
+        self.method_aliases = {}   # name -> expr naming a function
         self.class_attrs = {}
         self.base_exprs = node.bases
         self.bases = []   # resolved quals (filled by Program)
@@ -187,6 +188,16 @@ class Program:
                         for t in sub.targets:
                             if isinstance(t, ast.Name):
                                 ci.class_attrs[t.id] = sub.value
+                                v = sub.value
+                                if isinstance(v, ast.Call) and isinstance(
+                                        v.func, ast.Name) and v.func.id in (
+                                            'staticmethod', 'classmethod') \
+                                        and len(v.args) == 1:
+                                    ci.method_aliases[t.id] = (v.func.id,
+                                                               v.args[0])
+                                elif isinstance(v, (ast.Name,
+                                                    ast.Attribute)):
+                                    ci.method_aliases[t.id] = ('plain', v)
             elif isinstance(node, ast.Assign):
                 for t in node.targets:
                     if isinstance(t, ast.Name):
@@ -289,6 +300,19 @@ class Program:
         membership tests and iteration only."""
         if isinstance(v, ast.Constant):
             return v
+        if isinstance(v, ast.Dict) and v.keys and all(
+                isinstance(k, ast.Constant) for k in v.keys):
+            # a lookup table: constant keys, constant or named values
+            vals = []
+            for x in v.values:
+                if dotted(x) is not None and names_ok:
+                    vals.append(x)
+                    continue
+                y = self._immutable_literal(x, names_ok)
+                if y is None:
+                    return None
+                vals.append(y)
+            return ast.Dict(keys=list(v.keys), values=vals)
         frozen = False
         if isinstance(v, ast.Call) and isinstance(v.func, ast.Name) and \
                 v.func.id in ('frozenset', 'tuple') and not v.keywords:
@@ -334,10 +358,22 @@ class Program:
                 for n in ast.walk(t):
                     if isinstance(n, ast.Name):
                         count[n.id] = count.get(n.id, 0) + 1
+        MUT = ('append', 'extend', 'insert', 'remove', 'pop', 'clear',
+               'update', 'setdefault', 'add', 'discard', 'popitem', 'sort',
+               'reverse', '__setitem__', '__delitem__')
         for n in ast.walk(module.tree):
             if isinstance(n, ast.Global):
                 for nm in n.names:
                     count[nm] = 99
+            # mutated in place somewhere in the module: not a constant
+            if isinstance(n, ast.Call) and isinstance(
+                    n.func, ast.Attribute) and isinstance(
+                        n.func.value, ast.Name) and n.func.attr in MUT:
+                count[n.func.value.id] = 99
+            if isinstance(n, ast.Subscript) and isinstance(
+                    n.ctx, (ast.Store, ast.Del)) and isinstance(
+                        n.value, ast.Name):
+                count[n.value.id] = 99
         module._const_names = {k for k, c in count.items() if c == 1}
         return module._const_names
 
@@ -415,6 +451,62 @@ class Program:
                                              names_ok).get(expr.attr)
         return None
 
+    # ------------------------------------------------------------- records
+    def record_fields(self, module, func):
+        """Field names when `func` names a namedtuple type of the package
+        (collections.namedtuple(...) bound at module level, or a class whose
+        base is typing.NamedTuple), else None."""
+        d = dotted(func)
+        if d is None:
+            return None
+        r = self.resolve(module, func)
+        cache = self.__dict__.setdefault('_records', {})
+        if r in cache:
+            return cache[r]
+        out = None
+        if r in self.classes:
+            c = self.classes[r]
+            if any((self.resolve(c.module, b) or '').endswith('NamedTuple')
+                   for b in c.base_exprs):
+                out = [n.target.id for n in c.node.body
+                       if isinstance(n, ast.AnnAssign)
+                       and isinstance(n.target, ast.Name)]
+        elif r and r.rsplit('.', 1)[0] in self.modules:
+            m = self.modules[r.rsplit('.', 1)[0]]
+            v = m.assigns.get(r.rsplit('.', 1)[1])
+            if isinstance(v, ast.Call) and (self.resolve(m, v.func) or ''
+                                            ).endswith('namedtuple') and \
+                    len(v.args) >= 2:
+                f = v.args[1]
+                if isinstance(f, ast.Constant) and isinstance(f.value, str):
+                    out = f.value.replace(',', ' ').split()
+                elif isinstance(f, (ast.List, ast.Tuple)) and all(
+                        isinstance(x, ast.Constant) for x in f.elts):
+                    out = [x.value for x in f.elts]
+        cache[r] = out
+        return out
+
+    def record_args(self, module, call):
+        """{field: expr} for a constructor call of a namedtuple type, else
+        None (missing fields -> None when the type has defaults)."""
+        if not isinstance(call, ast.Call):
+            return None
+        fields = self.record_fields(module, call.func)
+        if not fields:
+            return None
+        if any(isinstance(a, ast.Starred) for a in call.args) or any(
+                k.arg is None for k in call.keywords):
+            return None
+        out = {}
+        for f, a in zip(fields, call.args):
+            out[f] = a
+        for k in call.keywords:
+            if k.arg in fields:
+                out[k.arg] = k.value
+        for f in fields:
+            out.setdefault(f, ast.Constant(value=None))
+        return out
+
     # ------------------------------------------------------------- classes
     def mro(self, qual):
         out = []
@@ -434,6 +526,15 @@ class Program:
             c = self.classes.get(q)
             if c and name in c.methods:
                 return c.methods[name]
+            if c and name in c.method_aliases:
+                how, target = c.method_aliases[name]
+                r = self.resolve(c.module, target)
+                f = self.functions.get(r) if r else None
+                if f is not None and (how != 'plain' or f.cls is None):
+                    # `X = staticmethod(f)`: calls through self/cls reach f
+                    # with the arguments as written
+                    if how == 'staticmethod' or f.cls is not None:
+                        return f
         return None
 
     def is_subclass(self, clsqual, basequal):
@@ -501,7 +602,11 @@ class Program:
         if isinstance(fn, ast.Attribute) and isinstance(fn.value, ast.Name):
             recv = fn.value.id
             if recv in ('self', 'cls') and finfo.cls is not None:
-                f = self.find_method(finfo.cls.qual, fn.attr)
+                hint = getattr(self, '_self_cls_hint', None)
+                q = finfo.cls.qual
+                if hint and q in self.mro(hint):
+                    q = hint          # the concrete class under analysis
+                f = self.find_method(q, fn.attr)
                 if f:
                     return f
         if (isinstance(fn, ast.Attribute)
